@@ -118,6 +118,51 @@ def csv_row(ctx, parser="common", sanitize=False, adjust=False):
         ctx.cover(lab)
 
 
+UNIT_SECONDS = {"s": 1, "m": 60, "min": 60, "h": 3600, "hour": 3600, "d": 86400, "day": 86400, "w": 7 * 86400,
+                "M": 31 * 86400}
+
+
+def _period_seconds(period):
+    """what a period string means (independent reading: <count><unit>)"""
+    import re
+    m = re.fullmatch(r"(\d*)([A-Za-z]+)", period)
+    n = int(m.group(1)) if m.group(1) else 1
+    return n * UNIT_SECONDS[m.group(2)]
+
+
+def exchange_csv_source(ctx, which="binance"):
+    """binance / bitstamp CSV BarSource: the period string selects the bar period; rows go through the common parser"""
+    from basana.external.binance.csv import bars as bn_csv
+    from basana.external.bitstamp.csv import bars as bt_csv
+    mod = bn_csv if which == "binance" else bt_csv
+    periods = sorted(mod.period_to_timedelta)
+    choices = list(periods)
+    if which == "bitstamp":
+        choices += [mod.BarPeriod.MINUTE, mod.BarPeriod.HOUR, mod.BarPeriod.DAY]
+    period = choices[ctx.choice("period", len(choices))]
+    ctx.patch(common_bars, "Decimal", DecimalFactory)
+    src = mod.BarSource(P, "no-such-file.csv", period)
+    o, h, l, c = [ctx.dec(n, 2, lo=1, hi=10 ** 9) for n in ("open", "high", "low", "close")]
+    v = ctx.dec("volume", 8, lo=1, hi=10 ** 12)
+    ctx.assume(l <= o, l <= c, o <= h, c <= h)
+    row = {"datetime": "2015-03-04 05:06:00", "open": o, "high": h, "low": l, "close": c, "volume": v}
+    evs = src.row_parser.parse_row(row)
+    start = datetime.datetime(2015, 3, 4, 5, 6, 0, tzinfo=UTC)
+    if not isinstance(period, str):
+        secs = {"MINUTE": 60, "HOUR": 3600, "DAY": 86400}[period.name]
+    else:
+        secs = _period_seconds(period)
+    ctx.prove(len(evs) == 1 and evs[0].when == start + datetime.timedelta(seconds=secs) and
+              evs[0].bar.datetime == start,
+              "C19 %s CSV source: the bar event is timestamped at the bar's start plus its period" % which,
+              info=str(period))
+    b = evs[0].bar
+    ctx.prove([b.open == o, b.high == h, b.low == l, b.close == c, b.volume == v, b.pair == P],
+              "C19 %s CSV source: the bar carries exactly the row's values" % which)
+    for lab in META["required_covers"]:
+        ctx.cover(lab)
+
+
 class _Ev(event.Event):
     pass
 
@@ -319,7 +364,11 @@ def jobs(tier):
           Job("csv row yahoo sanitize", "csv_row", dict(parser="yahoo", sanitize=True), validate_every=2,
               sample_every=5),
           Job("csv row yahoo adjust", "csv_row", dict(parser="yahoo", adjust=True), validate_every=2, sample_every=5),
-          Job("csv sort", "csv_sort", dict(n=3 if tier == "quick" else 4), validate_every=2, sample_every=5)]
+          Job("csv sort", "csv_sort", dict(n=3 if tier == "quick" else 4), validate_every=2, sample_every=5),
+          Job("binance csv source periods", "exchange_csv_source", dict(which="binance"), validate_every=4,
+              sample_every=8),
+          Job("bitstamp csv source periods", "exchange_csv_source", dict(which="bitstamp"), validate_every=4,
+              sample_every=8)]
     for dur in (1, 60, 3600):
         for start in ("aligned", "mid", "last_ms"):
             for skip in (False, True):
